@@ -5,9 +5,8 @@
   `InlineName` and across the two); the model is `nameEq`, `nameCmp`, `nameHashFeed`, `nameEqStr`.
   `fold a` = the ASCII-lower-cased text.
 
-  Open item (kept visible): `eqstr_parse : valid n → (nameEqStr n s ↔ ∃ m, parseName k s = ok m ∧ nameEq n m)`
-  is decided on the implementation by the `cmp` stream (eqstr requests against parsed strings) and is
-  not yet a theorem.
+  `eqstr_parse : valid n → (nameEqStr n s ↔ ∃ m, parseName k s = ok m ∧ nameEq n m)` is proved in
+  Props/C18Str.lean (it needs the parser theorems of C05).
 -/
 import Rsdns.Model.NameText
 
